@@ -614,12 +614,18 @@ where
         "wall_s": wall,
         "violations": violation_lines.len(),
     });
-    let ev_dir = args.root.join("evidence");
-    let _ = std::fs::create_dir_all(&ev_dir);
-    let ev_path = ev_dir.join(format!("{id}.json"));
-    if let Err(e) = std::fs::write(&ev_path, serde_json::to_string_pretty(&evidence).unwrap()) {
-        eprintln!("cannot write evidence file {}: {e}", ev_path.display());
-        return 2;
+    // evidence describes a registered command's run; experiments (overridden case counts, witness
+    // searches, sensitivity runs without regression plans) leave the committed record alone
+    let experiment = args.cases.is_some()
+        || args.extra.iter().any(|a| a == "--strict" || a == "--only" || a == "--no-regress");
+    if !experiment {
+        let ev_dir = args.root.join("evidence");
+        let _ = std::fs::create_dir_all(&ev_dir);
+        let ev_path = ev_dir.join(format!("{id}.json"));
+        if let Err(e) = std::fs::write(&ev_path, serde_json::to_string_pretty(&evidence).unwrap()) {
+            eprintln!("cannot write evidence file {}: {e}", ev_path.display());
+            return 2;
+        }
     }
     println!(
         "{id} {}: {} cases, {} distinct non-trivial, {} violation(s), {:.1}s",
